@@ -5,7 +5,7 @@
 #include <string.h>
 #include "vh.h"
 #include "sprintf_model.h"
-#define sprintf(b, f, v) vh_sb_sprintf(b, f, +(v))
+#define sprintf(b, f, ...) VH_SPRINTF(b, f, __VA_ARGS__)
 #include "stringbuilder.c"
 #undef sprintf
 #include "wasm_int.h"
@@ -21,6 +21,8 @@ void h_charhex(void) { ND(char, c); StringBuilder sb; bool ok; mk(&sb);
     OBL(ok && sb.string[sb.length] == 0 && sb.length + 1 <= sb.capacity && sb.length >= 1, #call ": for every value the local buffer suffices, the builder stays NUL-terminated and within capacity"); CANARY(#nm); }
 H_INT(u32, U32, stringBuilderAppendU32) H_INT(i32, I32, stringBuilderAppendI32) H_INT(u64, U64, stringBuilderAppendU64) H_INT(i64, I64, stringBuilderAppendI64)
 H_INT(u32hex, U32, stringBuilderAppendU32Hex) H_INT(u64hex, U64, stringBuilderAppendU64Hex)
+/* (that the decimal text of AppendU32/I32/U64/I64 denotes the value is checked natively in tools/decimal_roundtrip.c: rendering and parsing back
+ * - divide by ten, multiply by ten - did not finish on any installed solver, neither as parse-back nor against a second rendering) */
 void h_floats(void) { ND(F32, f); ND(F64, g); StringBuilder sb; bool ok; mk(&sb);
     ok = stringBuilderAppendF32(&sb, f) && stringBuilderAppendF64(&sb, g);
     OBL(ok && sb.string[sb.length] == 0 && sb.length + 1 <= sb.capacity, "AppendF32/F64: the 32-byte buffers hold the longest %.9g / %.17g output");
